@@ -1,3 +1,1419 @@
 package main
 
-func c04UnknownRoundTrip(r *Run, w *World, ruleID string) {}
+// Rules over auparse: C04, C05 (R2-R4; R1 is in bounds.go), C12.
+
+import (
+	"encoding/json"
+	"fmt"
+	"go/token"
+	"go/types"
+	"os"
+	"path/filepath"
+	"sort"
+	"strings"
+
+	"golang.org/x/tools/go/ssa"
+)
+
+// autoAlias names every call result in fn `<callee>#<ordinal>` so that terms stay readable.
+func autoAlias(fn *ssa.Function) func() {
+	counts := map[string]int{}
+	var undo []func()
+	for _, b := range fn.Blocks {
+		for _, in := range b.Instrs {
+			c, ok := in.(*ssa.Call)
+			if !ok {
+				continue
+			}
+			n := calleeName(c)
+			if n == "len" || n == "cap" || n == "append" || n == "copy" {
+				continue
+			}
+			if i := strings.LastIndexAny(n, "./)"); i >= 0 {
+				n = n[i+1:]
+			}
+			counts[n]++
+			undo = append(undo, alias(c, fmt.Sprintf("%s#%d", n, counts[n])))
+		}
+	}
+	return func() {
+		for _, u := range undo {
+			u()
+		}
+	}
+}
+
+type aup struct {
+	r *Run
+	w *World
+
+	data, tags, toMapStr, parse, parseLogLine, parseHeader, getType, typeString, enrich, extractKV *ssa.Function
+	fData, fError, fTags, fOffset, fRawData                                                      *types.Var
+	msgT                                                                                         *types.Named
+	ok                                                                                           bool
+}
+
+func loadAup(r *Run, w *World) *aup {
+	x := &aup{r: r, w: w, ok: true}
+	m := func(typ, name string) *ssa.Function {
+		f, err := w.Method("auparse", typ, name)
+		if err != nil {
+			r.Anchor(err)
+			x.ok = false
+		}
+		return f
+	}
+	fn := func(name string) *ssa.Function {
+		f, err := w.Func("auparse", name)
+		if err != nil {
+			r.Anchor(err)
+			x.ok = false
+		}
+		return f
+	}
+	fv := func(typ, name string) *types.Var {
+		v, err := w.FieldVar("auparse", typ, name)
+		if err != nil {
+			r.Anchor(err)
+			x.ok = false
+		}
+		return v
+	}
+	x.data, x.tags, x.toMapStr = m("AuditMessage", "Data"), m("AuditMessage", "Tags"), m("AuditMessage", "ToMapStr")
+	x.enrich = m("AuditMessage", "enrichData")
+	x.parse, x.parseLogLine, x.parseHeader = fn("Parse"), fn("ParseLogLine"), fn("parseAuditHeader")
+	x.getType, x.typeString, x.extractKV = fn("GetAuditMessageType"), m("AuditMessageType", "String"), fn("extractKeyValuePairs")
+	x.fData, x.fError, x.fTags = fv("AuditMessage", "data"), fv("AuditMessage", "error"), fv("AuditMessage", "tags")
+	x.fOffset, x.fRawData = fv("AuditMessage", "offset"), fv("AuditMessage", "RawData")
+	if n, err := w.Named("auparse", "AuditMessage"); err != nil {
+		r.Anchor(err)
+		x.ok = false
+	} else {
+		x.msgT = n
+	}
+	if x.ok {
+		r.UseFn(fnName(x.data), fnName(x.tags), fnName(x.toMapStr), fnName(x.parse), fnName(x.parseLogLine), fnName(x.parseHeader),
+			fnName(x.getType), fnName(x.typeString), fnName(x.enrich), fnName(x.extractKV))
+	}
+	return x
+}
+
+// ----------------------------------------------------------------------------------------------
+// C04
+
+func init() {
+	props["C04"] = propC04
+	propMeta["C04"] = PropMeta{
+		Explanation: "Header handling decided structurally: in ToMapStr the well-known keys are written after every copied body field and from the header fields (so body fields cannot override them) into a map allocated by that call; every return of Parse/ParseLogLine/parseAuditHeader/GetAuditMessageType yields either an error with a nil/zero value or a value with a nil error; AuditMessage has a single constructor (the literal in Parse, under err == nil) and ParseLogLine reaches it only through Parse with the text after the first 'msg='; the numeric conversions agree in width and signedness with the fields they fill (ParseUint(_,10,32) -> uint32, milliseconds * 1e6 as nanoseconds), RawData is the trimmed text that was parsed; the UNKNOWN[n] spelling is printed from a 16-bit value and parsed back with ParseUint(_,10,16) from between the brackets.",
+		NotDecided:  "Equality of timestamp/sequence with the written digits over all inputs (that strconv parses what was printed) and the behaviour on every corruption; bounds of the header slicing are decided under C05.",
+		Assumptions: []string{"strconv/strings/time behave as documented"},
+	}
+}
+
+func propC04(r *Run, w *World) {
+	x := loadAup(r, w)
+	if !x.ok {
+		return
+	}
+	// R1
+	r.Rule("C04.R1", "well-known keys win: on every path of ToMapStr the stores of record_type, @timestamp, sequence, raw_msg come after the last store with a non-constant key, take their values from the header fields, and go into the map this call allocated and returns", 6)
+	{
+		fn := x.toMapStr
+		undo := autoAlias(fn)
+		want := map[string]string{
+			"record_type": "String#1", "@timestamp": "String#2", "sequence": "FormatUint#1", "raw_msg": "p0.RawData",
+		}
+		valueDefs := map[string]string{
+			"String#1": fnName(x.typeString) + "(p0.RecordType)", "String#2": "(time.Time).String((time.Time).UTC(p0.Timestamp))",
+			"FormatUint#1": "strconv.FormatUint(uint64(p0.Sequence), 10)",
+		}
+		// resolve alias definitions structurally
+		defOK := true
+		instrsOf(fn, func(in ssa.Instruction) {
+			c, ok := in.(*ssa.Call)
+			if !ok {
+				return
+			}
+			a := termAlias[c]
+			wantDef, has := valueDefs[a]
+			if !has {
+				return
+			}
+			delete(termAlias, c)
+			got := Term(c)
+			termAlias[c] = a
+			// expand nested alias UTC#1
+			got = strings.ReplaceAll(got, "UTC#1", "(time.Time).UTC(p0.Timestamp)")
+			if got != wantDef {
+				defOK = false
+				r.Fail("ToMapStr value "+a, c.Pos(), "value is "+got+", want "+wantDef)
+			}
+		})
+		var mk *ssa.MakeMap
+		nMk := 0
+		instrsOf(fn, func(in ssa.Instruction) {
+			if m, ok := in.(*ssa.MakeMap); ok {
+				mk = m
+				nMk++
+			}
+		})
+		r.Check(nMk == 1, "ToMapStr allocates its result", fn.Pos(), "one make(map) per call", fmt.Sprintf("%d map allocations", nMk))
+		ps, complete := Paths(fn, PathOpts{MaxVisit: 2})
+		if !complete {
+			r.Undecided("ToMapStr paths", fn.Pos(), "path cap exceeded")
+		}
+		for i, p := range ps {
+			if p.End != "return" {
+				continue
+			}
+			lastDyn := -1
+			seen := map[string]int{}
+			okVals := true
+			for ei, e := range p.Events {
+				mu, ok := e.Instr.(*ssa.MapUpdate)
+				if !ok || e.Kind != EvMapUpdate {
+					continue
+				}
+				if mk != nil && mu.Map != ssa.Value(mk) {
+					r.Fail(fmt.Sprintf("ToMapStr path#%d foreign map", i), mu.Pos(), "a map other than the result is written")
+				}
+				if k, isC := constString(mu.Key); isC {
+					seen[k] = ei
+					if wv, isWK := want[k]; isWK && Term(mu.Value) != wv {
+						okVals = false
+					}
+				} else {
+					lastDyn = ei
+				}
+			}
+			okOrder := true
+			for k := range want {
+				ei, has := seen[k]
+				if !has || ei < lastDyn {
+					okOrder = false
+				}
+			}
+			for _, k := range []string{"tags", "error"} {
+				if ei, has := seen[k]; has && ei < lastDyn {
+					okOrder = false
+				}
+			}
+			ret := p.Return()
+			okRet := ret != nil && mk != nil && ret.Results[0] == ssa.Value(mk)
+			r.Check(okOrder && okVals && okRet && defOK, fmt.Sprintf("ToMapStr path#%d", i), fn.Pos(), "header keys stored last, from the header",
+				"a body field can override a well-known key, or a well-known key is not taken from the header: "+compactPathMU(p))
+		}
+		undo()
+	}
+	// R2
+	r.Rule("C04.R2", "error xor message: every return of Parse, ParseLogLine, parseAuditHeader and GetAuditMessageType has a nil/zero value with a non-nil error, or a nil error; the AuditMessage literal is under err == nil", 15)
+	for _, fn := range []*ssa.Function{x.parse, x.parseLogLine, x.parseHeader, x.getType} {
+		for i, ret := range returnsOf(fn) {
+			key := fmt.Sprintf("%s return#%d", fnName(fn), i)
+			ev, _ := errResult(ret)
+			if ev == nil {
+				r.Fail(key, ret.Pos(), "no error result")
+				continue
+			}
+			if isNilConst(ev) {
+				r.OK(key, ret.Pos(), "success return")
+				continue
+			}
+			// tail call: all results are the extracts of one call to a checked sibling
+			if ex, ok := ev.(*ssa.Extract); ok {
+				if c, ok := ex.Tuple.(*ssa.Call); ok {
+					callee := c.Call.StaticCallee()
+					tail := callee == x.parse || callee == x.parseHeader || callee == x.getType
+					for j, rv := range ret.Results {
+						e2, ok := rv.(*ssa.Extract)
+						if !ok || e2.Tuple != ex.Tuple || e2.Index != j {
+							tail = false
+						}
+					}
+					if tail {
+						r.OK(key, ret.Pos(), "forwards both results of "+fnName(callee))
+						continue
+					}
+				}
+			}
+			zero := true
+			for _, rv := range ret.Results[:len(ret.Results)-1] {
+				switch c := rv.(type) {
+				case *ssa.Const:
+					if c.Value != nil {
+						if n, ok := constInt(c); !ok || n != 0 {
+							zero = false
+						}
+					}
+				default:
+					zero = false
+				}
+			}
+			// the error must be non-nil on this edge: a guard err != nil, a package-level error variable, or a constructor call
+			nonNil := HoldsAt(ret.Block(), Term(ev)+" != nil") || strings.HasPrefix(Term(ev), "auparse.err") || strings.HasPrefix(Term(ev), "errors.New(") || strings.HasPrefix(Term(ev), "fmt.Errorf(")
+			r.Check(zero && nonNil, key, ret.Pos(), "zero value with a non-nil error", "an error return carries a value, or the error may be nil: "+Term(ev))
+		}
+	}
+	// R3
+	r.Rule("C04.R3", "one implementation: the only constructor of AuditMessage is the literal in Parse (under parseAuditHeader's err == nil); ParseLogLine reaches it only by calling Parse with the text after the first 'msg=' and the type named before it", 4)
+	{
+		n := 0
+		for _, fn := range w.SrcFuncs() {
+			instrsOf(fn, func(in ssa.Instruction) {
+				al, ok := in.(*ssa.Alloc)
+				if !ok {
+					return
+				}
+				if !types.Identical(al.Type().(*types.Pointer).Elem(), x.msgT) {
+					return
+				}
+				n++
+				r.Check(fn == x.parse, "AuditMessage constructed in "+fnName(fn), al.Pos(), "", "an AuditMessage is constructed outside Parse")
+			})
+		}
+		r.Check(n == 1, "one AuditMessage constructor", x.parse.Pos(), "", fmt.Sprintf("%d construction sites", n))
+		undo := autoAlias(x.parse)
+		for _, st := range storesOf(x.parse) {
+			if strings.HasPrefix(AddrTerm(st.Addr), "new(auparse.AuditMessage)") {
+				r.Check(HoldsAt(st.Block(), "parseAuditHeader#1#3 == nil"), "literal under err == nil", st.Pos(), "", "the message is built although the header failed to parse")
+				break
+			}
+		}
+		undo()
+		undo = autoAlias(x.parseLogLine)
+		msgTok, _ := w.Const("auparse", "msgToken")
+		typTok, _ := w.Const("auparse", "typeToken")
+		calls := callsIn(x.parseLogLine, x.parse)
+		ok := len(calls) == 1 && msgTok != nil && typTok != nil
+		if ok {
+			c := calls[0].Common()
+			mt := constVal(msgTok)
+			idx := fmt.Sprintf("Index#1")
+			okIdx := false
+			for _, ic := range callsNamedIn(x.parseLogLine, "strings.Index") {
+				a := ic.Common().Args
+				if s, isC := constString(a[1]); isC && s == mt && a[0] == ssa.Value(x.parseLogLine.Params[0]) {
+					okIdx = true
+				}
+			}
+			wantMsg := fmt.Sprintf("p0[(%s + %d):]", idx, len(mt))
+			wantTyp := fmt.Sprintf("GetAuditMessageType#1#0")
+			ok = okIdx && Term(c.Args[1]) == wantMsg && Term(c.Args[0]) == wantTyp
+			if ok {
+				gt := callsIn(x.parseLogLine, x.getType)
+				ok = len(gt) == 1 && Term(gt[0].Common().Args[0]) == fmt.Sprintf("p0[%d:(%s - 1)]", len(constVal(typTok)), idx) &&
+					HoldsAt(calls[0].Block(), "GetAuditMessageType#1#1 == nil")
+			}
+		}
+		r.Check(ok, "ParseLogLine → Parse(type, line[msgIndex+len(msgToken):])", x.parseLogLine.Pos(), "", "ParseLogLine does not hand Parse the text after the first 'msg=' with the type named before it")
+		undo()
+	}
+	// R4
+	r.Rule("C04.R4", "width agreement: each narrowing conversion of a strconv.ParseInt/ParseUint result has bitSize <= the target width and matching signedness; the nanosecond argument of time.Unix is the parsed milliseconds times 1e6; the results are wired sec/msec/sequence/end in that order; RawData is the string that was parsed", 5)
+	{
+		fn := x.parseHeader
+		n := 0
+		instrsOf(fn, func(in ssa.Instruction) {
+			cv, ok := in.(*ssa.Convert)
+			if !ok {
+				return
+			}
+			ex, ok := cv.X.(*ssa.Extract)
+			if !ok {
+				return
+			}
+			c, ok := ex.Tuple.(*ssa.Call)
+			if !ok {
+				return
+			}
+			name := calleeName(c)
+			if name != "strconv.ParseInt" && name != "strconv.ParseUint" {
+				return
+			}
+			n++
+			bits, _ := constInt(c.Call.Args[2])
+			tb, _ := cv.Type().Underlying().(*types.Basic)
+			width := int64(0)
+			unsigned := false
+			if tb != nil {
+				width = w.Sizes.Sizeof(tb) * 8
+				unsigned = tb.Info()&types.IsUnsigned != 0
+			}
+			ok = bits > 0 && bits <= width && unsigned == (name == "strconv.ParseUint")
+			r.Check(ok, fmt.Sprintf("conversion %s(%s bitSize %d)", typeStr(cv.Type()), name, bits), cv.Pos(), "fits", fmt.Sprintf("%s with bitSize %d is converted to %s: values the parser accepts are truncated or change sign", name, bits, typeStr(cv.Type())))
+		})
+		r.Check(n >= 1, "narrowing conversions found", fn.Pos(), "", "no conversion of a parsed number found in parseAuditHeader")
+		undo := autoAlias(fn)
+		// success return wiring
+		for _, ret := range returnsOf(fn) {
+			ev, _ := errResult(ret)
+			if !isNilConst(ev) {
+				continue
+			}
+			var unix *ssa.Call
+			for _, c := range callsNamedIn(fn, "time.Unix") {
+				unix = c.(*ssa.Call)
+			}
+			ok := unix != nil
+			if ok {
+				ok = Term(unix.Call.Args[0]) == "ParseInt#1#0" && Term(unix.Call.Args[1]) == "(ParseInt#2#0 * 1000000)"
+			}
+			r.Check(ok, "time.Unix(sec, msec*1e6)", ret.Pos(), "", "the timestamp is not time.Unix(seconds, milliseconds*1e6)")
+			okRet := Term(ret.Results[0]) == "UTC#1" && Term(ret.Results[1]) == "uint32(ParseUint#1#0)" &&
+				Term(ret.Results[2]) == "(IndexRune#4 + (IndexRune#3 + (IndexRune#2 + IndexRune#1)))"
+			r.Check(okRet, "results (time, sequence, end)", ret.Pos(), "", "parseAuditHeader does not return (UTC time, uint32 sequence, index of ')'): "+Term(ret.Results[0])+", "+Term(ret.Results[1])+", "+Term(ret.Results[2]))
+			// the three numbers come from the three consecutive header fields
+			args := map[string]string{}
+			for _, c := range fn.Blocks {
+				for _, in := range c.Instrs {
+					if cc, ok := in.(*ssa.Call); ok {
+						if a := termAlias[cc]; strings.HasPrefix(a, "Parse") {
+							args[a] = Term(cc.Call.Args[0]) + "," + Term(cc.Call.Args[1]) + "," + Term(cc.Call.Args[2])
+						}
+					}
+				}
+			}
+			start, dot, sep := "IndexRune#1", "(IndexRune#2 + IndexRune#1)", "(IndexRune#3 + (IndexRune#2 + IndexRune#1))"
+			end := "(IndexRune#4 + " + sep + ")"
+			wantArgs := map[string]string{
+				"ParseInt#1":  "p0[(" + start + " + 1):" + dot + "],10,64",
+				"ParseInt#2":  "p0[(" + dot + " + 1):" + sep + "],10,64",
+				"ParseUint#1": "p0[(" + sep + " + 1):" + end + "],10,32",
+			}
+			okArgs := true
+			for k, v := range wantArgs {
+				if args[k] != v {
+					okArgs = false
+				}
+			}
+			r.Check(okArgs, "fields between ( . : )", ret.Pos(), "", fmt.Sprintf("the numbers are not parsed from the text between '(' '.' ':' ')' in that order: %v", args))
+			// delimiters
+			wantDelim := map[string]string{"IndexRune#1": "p0,40", "IndexRune#2": "p0[" + start + ":],46", "IndexRune#3": "p0[" + dot + ":],58", "IndexRune#4": "p0[" + sep + ":],41"}
+			okD := true
+			for _, b := range fn.Blocks {
+				for _, in := range b.Instrs {
+					if cc, ok := in.(*ssa.Call); ok {
+						if a := termAlias[cc]; strings.HasPrefix(a, "IndexRune") {
+							if Term(cc.Call.Args[0])+","+Term(cc.Call.Args[1]) != wantDelim[a] {
+								okD = false
+							}
+						}
+					}
+				}
+			}
+			r.Check(okD, "delimiters ( . : ) searched left to right", ret.Pos(), "", "the header delimiters are not located as '(' then '.' then ':' then ')' each from the previous one")
+		}
+		undo()
+		// Parse wiring
+		undo = autoAlias(x.parse)
+		want := map[string]string{"RecordType": "p0", "Timestamp": "parseAuditHeader#1#0", "Sequence": "parseAuditHeader#1#1", "RawData": "TrimSpace#1",
+			"offset": "indexOfMessage#1"}
+		got := map[string]string{}
+		for _, st := range storesOf(x.parse) {
+			t := AddrTerm(st.Addr)
+			if i := strings.LastIndex(t, "."); i >= 0 && strings.HasPrefix(t, "new(auparse.AuditMessage)") {
+				got[t[i+1:]] = Term(st.Val)
+			}
+		}
+		ok := len(got) == len(want)
+		for k, v := range want {
+			if got[k] != v {
+				ok = false
+			}
+		}
+		hdr := callsIn(x.parse, x.parseHeader)
+		ok = ok && len(hdr) == 1 && Term(hdr[0].Common().Args[0]) == "TrimSpace#1"
+		iom := callsNamedIn(x.parse, "auparse.indexOfMessage")
+		ok = ok && len(iom) == 1 && Term(iom[0].Common().Args[0]) == "TrimSpace#1[parseAuditHeader#1#2:]"
+		ts := callsNamedIn(x.parse, "strings.TrimSpace")
+		ok = ok && len(ts) == 1 && ts[0].Common().Args[0] == ssa.Value(x.parse.Params[1])
+		r.Check(ok, "Parse fills the message from the header it parsed", x.parse.Pos(), "", fmt.Sprintf("Parse's literal is %v", got))
+		undo()
+	}
+	c04UnknownRoundTrip(r, w, "C04.R5")
+}
+
+func compactPathMU(p *Path) string {
+	var s []string
+	for _, e := range p.Events {
+		if e.Kind == EvMapUpdate {
+			if mu, ok := e.Instr.(*ssa.MapUpdate); ok {
+				s = append(s, "["+Term(mu.Key)+"]="+Term(mu.Value))
+			}
+		}
+	}
+	return strings.Join(s, " ; ")
+}
+
+// c04UnknownRoundTrip: C04.R5 — the UNKNOWN[n] spelling is printed and parsed consistently.
+func c04UnknownRoundTrip(r *Run, w *World, ruleID string) {
+	r.Rule(ruleID, "UNKNOWN[n] round trip: String falls back to fmt.Sprintf(\"UNKNOWN[%d]\", uint16(t)) only when the type has no name; GetAuditMessageType looks the upper-cased name up first and otherwise parses the text between '[' and ']' with ParseUint(_, 10, 16)", 2)
+	str, err := w.Method("auparse", "AuditMessageType", "String")
+	if err != nil {
+		r.Anchor(err)
+		return
+	}
+	get, err := w.Func("auparse", "GetAuditMessageType")
+	if err != nil {
+		r.Anchor(err)
+		return
+	}
+	{
+		ps, _ := Paths(str, PathOpts{})
+		ok := len(ps) == 2
+		for _, p := range ps {
+			ret := p.Return()
+			if ret == nil {
+				ok = false
+				continue
+			}
+			switch {
+			case p.HasLit("has(auparse.auditMessageTypeToName, p0)"):
+				ok = ok && Term(ret.Results[0]) == "auparse.auditMessageTypeToName[p0]"
+			case p.HasLit("!has(auparse.auditMessageTypeToName, p0)"):
+				calls := p.CallsNamed("fmt.Sprintf")
+				okc := len(calls) == 1
+				if okc {
+					c := calls[0].Instr.(*ssa.Call)
+					f, _ := constString(c.Call.Args[0])
+					okc = f == "UNKNOWN[%d]"
+					// the vararg is uint16(p0)
+					if sl, isSl := c.Call.Args[1].(*ssa.Slice); isSl && okc {
+						okc = false
+						if al, isAl := sl.X.(*ssa.Alloc); isAl {
+							for _, st := range storesOf(str) {
+								if ia, isIA := st.Addr.(*ssa.IndexAddr); isIA && ia.X == ssa.Value(al) {
+									// a 16-bit unsigned rendering of the receiver (AuditMessageType's underlying type is uint16)
+									inner := st.Val
+									if mi, ok := inner.(*ssa.MakeInterface); ok {
+										inner = mi.X
+									}
+									bt, _ := inner.Type().Underlying().(*types.Basic)
+									okc = bt != nil && bt.Kind() == types.Uint16 && stripConv(inner) == ssa.Value(str.Params[0])
+								}
+							}
+						}
+					}
+					okc = okc && ret.Results[0] == ssa.Value(c)
+				}
+				ok = ok && okc
+			default:
+				ok = false
+			}
+		}
+		r.Check(ok, "String fallback", str.Pos(), "UNKNOWN[%d] of the 16-bit code", "String does not print unnamed types as UNKNOWN[<decimal 16-bit code>]")
+	}
+	{
+		undo := autoAlias(get)
+		okLookup, okParse := false, false
+		for _, ret := range returnsOf(get) {
+			ev, _ := errResult(ret)
+			if !isNilConst(ev) {
+				continue
+			}
+			t := Term(ret.Results[0])
+			if t == "auparse.auditMessageNameToType[ToUpper#1]" && HoldsAt(ret.Block(), "has(auparse.auditMessageNameToType, ToUpper#1)") {
+				okLookup = true
+			}
+			if t == "auparse.AuditMessageType(ParseUint#1#0)" && HoldsAt(ret.Block(), "ParseUint#1#1 == nil") {
+				for _, c := range callsNamedIn(get, "strconv.ParseUint") {
+					a := c.Common().Args
+					okParse = Term(a[0]) == "ToUpper#1[(IndexByte#1 + 1):][:IndexByte#2]" && isConstInt(a[1], 10) && isConstInt(a[2], 16)
+				}
+				for _, c := range callsNamedIn(get, "strings.IndexByte") {
+					a := c.Common().Args
+					switch termAlias[c.Value()] {
+					case "IndexByte#1":
+						okParse = okParse && Term(a[0]) == "ToUpper#1" && isConstInt(a[1], '[')
+					case "IndexByte#2":
+						okParse = okParse && Term(a[0]) == "ToUpper#1[(IndexByte#1 + 1):]" && isConstInt(a[1], ']')
+					}
+				}
+			}
+		}
+		for _, c := range callsNamedIn(get, "strings.ToUpper") {
+			if c.Common().Args[0] != ssa.Value(get.Params[0]) {
+				okLookup = false
+			}
+		}
+		r.Check(okLookup && okParse, "GetAuditMessageType", get.Pos(), "table lookup, else ParseUint(text between [ ], 10, 16)", "GetAuditMessageType does not resolve names through the table and UNKNOWN[n] through ParseUint(_, 10, 16)")
+		undo()
+	}
+}
+
+// ----------------------------------------------------------------------------------------------
+// C05 (R2-R4)
+
+func init() {
+	props["C05"] = propC05
+	propMeta["C05"] = PropMeta{
+		Technique:   "static analysis: bounds/panic obligations (gc prove-pass listing + linear prover over SSA guards with checked lemmas), loop/recursion classification, SSA path conditions",
+		Explanation: "Totality decided structurally for everything reachable from ParseLogLine, Parse, Data, Tags, ToMapStr: every index/slice operation the compiler cannot prove in bounds, every non-constant allocation size, division, unchecked type assertion, nil-map write and explicit panic in scope is an obligation that must be proved from dominating guards and library postconditions or by a named lemma whose premises are re-checked; every loop is a range over a value not grown in its body or a counted loop with a loop-invariant bound, recursion only through the reviewed extractKeyValuePairs (argument is a strict submatch); Data's cached-result test dominates all work and every other path stores the result it returns; ToMapStr reports a parse error under the 'error' key.",
+		NotDecided:  "Panics from nil receivers or from messages whose exported fields were overwritten by the caller (outside 'any message they return'); termination of library code (Go's regexp is linear-time).",
+		Assumptions: []string{"the gc compiler's prove pass is sound (sites it eliminates are in bounds)", "library postconditions listed in the checker"},
+	}
+}
+
+func (w *World) reachable(entries []*ssa.Function, within func(*ssa.Function) bool) []*ssa.Function {
+	seen := map[*ssa.Function]bool{}
+	var out []*ssa.Function
+	var walk func(f *ssa.Function)
+	walk = func(f *ssa.Function) {
+		if f == nil || seen[f] || len(f.Blocks) == 0 || !within(f) {
+			return
+		}
+		seen[f] = true
+		out = append(out, f)
+		instrsOf(f, func(in ssa.Instruction) {
+			if ci, ok := in.(ssa.CallInstruction); ok {
+				if c := ci.Common().StaticCallee(); c != nil {
+					walk(c)
+				}
+			}
+			var ops []*ssa.Value
+			for _, op := range in.Operands(ops) {
+				switch v := (*op).(type) {
+				case *ssa.Function:
+					walk(v)
+				case *ssa.MakeClosure:
+					walk(v.Fn.(*ssa.Function))
+				}
+			}
+		})
+		for _, a := range f.AnonFuncs {
+			walk(a)
+		}
+	}
+	for _, e := range entries {
+		walk(e)
+	}
+	sort.Slice(out, func(i, j int) bool { return fnName(out[i]) < fnName(out[j]) })
+	return out
+}
+
+// loopKind classifies a natural loop for the termination rule.
+func loopKind(fn *ssa.Function, l *Loop) (string, string) {
+	ifi, ok := l.Header.Instrs[len(l.Header.Instrs)-1].(*ssa.If)
+	if !ok {
+		// header does not branch: `for { ... }` — exits are elsewhere
+		return "", "loop header has no exit test (for { ... })"
+	}
+	// range over map/string: rangeok(next(range x))
+	if ex, ok := ifi.Cond.(*ssa.Extract); ok {
+		if nx, ok := ex.Tuple.(*ssa.Next); ok && ex.Index == 0 {
+			if rg, ok := nx.Iter.(*ssa.Range); ok {
+				if _, isMap := rg.X.Type().Underlying().(*types.Map); isMap {
+					// inserting into the ranged map inside the body could extend it
+					grown := false
+					for b := range l.Body {
+						for _, in := range b.Instrs {
+							if mu, ok := in.(*ssa.MapUpdate); ok && mu.Map == rg.X {
+								grown = true
+							}
+						}
+					}
+					if grown {
+						return "", "the ranged map is inserted into inside the loop"
+					}
+				}
+				return "range", ""
+			}
+		}
+	}
+	b, ok := ifi.Cond.(*ssa.BinOp)
+	if !ok || (b.Op != token.LSS && b.Op != token.LEQ) {
+		return "", "exit test is not `i < n`: " + Lit(ifi.Cond, true)
+	}
+	// bound must be loop-invariant
+	inv := true
+	var ins []ssa.Instruction
+	leafInstrs(b.Y, map[ssa.Value]bool{}, &ins)
+	for _, in := range ins {
+		if l.Body[in.Block()] {
+			if _, isPhi := in.(*ssa.Phi); isPhi {
+				inv = false
+			}
+			switch in.(type) {
+			case *ssa.Call, *ssa.UnOp, *ssa.Lookup:
+				// recomputed each iteration: accept len(x) of an invariant x
+				if c, ok := in.(*ssa.Call); ok && calleeName(c) == "len" {
+					continue
+				}
+				inv = false
+			}
+		}
+	}
+	if !inv {
+		return "", "loop bound is recomputed inside the loop: " + Term(b.Y)
+	}
+	// induction variable: phi{c | phi+k} or (phi{-1|inc}+1)
+	var phi *ssa.Phi
+	switch v := b.X.(type) {
+	case *ssa.Phi:
+		phi = v
+	case *ssa.BinOp:
+		if p, ok := v.X.(*ssa.Phi); ok && v.Op == token.ADD {
+			phi = p
+		}
+	}
+	if phi == nil || phi.Block() != l.Header {
+		return "", "no induction variable in the exit test: " + Term(b.X)
+	}
+	for i, e := range phi.Edges {
+		pred := l.Header.Preds[i]
+		if !l.Body[pred] {
+			continue
+		}
+		inc, ok := e.(*ssa.BinOp)
+		if !ok || inc.Op != token.ADD {
+			return "", "induction variable is not advanced by addition: " + Term(e)
+		}
+		k, isC := constInt(inc.Y)
+		if inc.X != ssa.Value(phi) || !isC || k <= 0 {
+			return "", "induction variable is not advanced by a positive constant: " + Term(e)
+		}
+	}
+	return "counted", ""
+}
+
+func (x *aup) scope() []*ssa.Function {
+	return x.w.reachable([]*ssa.Function{x.parseLogLine, x.parse, x.data, x.tags, x.toMapStr}, func(f *ssa.Function) bool {
+		return x.w.inPkg(f, "auparse") || x.w.inPkg(f, "internal")
+	})
+}
+
+func terminationRule(r *Run, w *World, ruleID string, scope []*ssa.Function, reviewedLoops map[string]string, reviewedRecursion map[string]string) {
+	r.Rule(ruleID, "termination: every loop in scope is a range over a value not grown in its body or a counted loop with a strictly advancing induction variable and a loop-invariant bound (or is in the reviewed table); recursion only through reviewed functions", 8)
+	inScope := map[*ssa.Function]bool{}
+	for _, f := range scope {
+		inScope[f] = true
+	}
+	for _, fn := range scope {
+		for i, l := range NaturalLoops(fn) {
+			kind, why := loopKind(fn, l)
+			key := fmt.Sprintf("%s loop#%d", fnName(fn), i)
+			if kind != "" {
+				r.OK(key, l.Header.Instrs[0].Pos(), kind)
+				continue
+			}
+			if reason, ok := reviewedLoops[fnName(fn)]; ok {
+				r.OK(key+" (reviewed)", l.Header.Instrs[0].Pos(), reason)
+				continue
+			}
+			r.Fail(key, fn.Pos(), "loop is neither a range nor a counted loop with an invariant bound: "+why)
+		}
+		// recursion: any static call cycle
+		instrsOf(fn, func(in ssa.Instruction) {
+			ci, ok := in.(ssa.CallInstruction)
+			if !ok {
+				return
+			}
+			c := ci.Common().StaticCallee()
+			if c == nil || !inScope[c] {
+				return
+			}
+			if reaches(c, fn, inScope, map[*ssa.Function]bool{}) {
+				key := "recursion " + fnName(fn) + " → " + fnName(c)
+				if reason, ok := reviewedRecursion[fnName(fn)+"→"+fnName(c)]; ok {
+					// premise: the recursive argument derives from a regexp submatch of the parameter
+					arg := ""
+					if len(ci.Common().Args) > 0 {
+						arg = Term(ci.Common().Args[len(ci.Common().Args)-1])
+					}
+					okPremise := strings.Contains(arg, "FindAllStringSubmatch(auparse.kvRegex, p0, -1)") && strings.Contains(arg, "[2]")
+					r.Check(okPremise, key+" (reviewed)", in.Pos(), reason, "the premise of the reviewed recursion no longer holds: the argument is "+arg)
+				} else {
+					r.Fail(key, in.Pos(), "unreviewed recursion")
+				}
+			}
+		})
+	}
+}
+
+func reaches(from, to *ssa.Function, inScope map[*ssa.Function]bool, seen map[*ssa.Function]bool) bool {
+	if from == to {
+		return true
+	}
+	if seen[from] {
+		return false
+	}
+	seen[from] = true
+	found := false
+	instrsOf(from, func(in ssa.Instruction) {
+		if found {
+			return
+		}
+		if ci, ok := in.(ssa.CallInstruction); ok {
+			if c := ci.Common().StaticCallee(); c != nil && inScope[c] && reaches(c, to, inScope, seen) {
+				found = true
+			}
+		}
+	})
+	return found
+}
+
+func propC05(r *Run, w *World) {
+	x := loadAup(r, w)
+	if !x.ok {
+		return
+	}
+	scope := x.scope()
+	for _, f := range scope {
+		r.UseFn(fnName(f))
+	}
+	boundsRule(r, w, "C05.R1", "auparse", scope)
+	terminationRule(r, w, "C05.R2", scope,
+		map[string]string{
+			"(auparse.fieldMap).execveArgs": "counted loop `i < int(count)` that returns at the first missing key: at most len(map)+1 iterations",
+		},
+		map[string]string{
+			"auparse.extractKeyValuePairs→auparse.extractKeyValuePairs": "the argument is group 2 of a kvRegex match of the parameter, a strict substring (at least 'k=' shorter), so the depth is bounded by the input length",
+		})
+	// R3
+	r.Rule("C05.R3", "idempotence of Data: the cached-result test (data != nil || error != nil) dominates all work; every other path stores a non-nil value into data or error before returning exactly those fields; data/error/tags have no other writer; ToMapStr allocates its result on every call", 8)
+	{
+		fn := x.data
+		ps, complete := Paths(fn, PathOpts{MaxVisit: 2})
+		if !complete {
+			r.Undecided("Data paths", fn.Pos(), "path cap exceeded")
+		}
+		for i, p := range ps {
+			if p.End != "return" {
+				continue
+			}
+			ret := p.Return()
+			key := fmt.Sprintf("Data path#%d [%s]", i, firstLits(p, 3))
+			cached := p.HasLit("p0.data != nil") || p.HasLit("p0.error != nil")
+			stores := 0
+			calls := 0
+			nonNil := false
+			for _, e := range p.Events {
+				if e.Kind == EvCall {
+					calls++
+				}
+				st, ok := e.Instr.(*ssa.Store)
+				if !ok || e.Kind != EvStore {
+					continue
+				}
+				fa, ok := st.Addr.(*ssa.FieldAddr)
+				if !ok || fa.X != ssa.Value(fn.Params[0]) {
+					continue
+				}
+				f := fieldOfAddr(fa)
+				if f == x.fData || f == x.fError {
+					stores++
+					if _, isMk := st.Val.(*ssa.MakeMap); isMk {
+						nonNil = true
+					}
+					if HoldsAt(st.Block(), Term(st.Val)+" != nil") || strings.HasPrefix(Term(st.Val), "errors.New(") {
+						nonNil = true
+					}
+				}
+			}
+			okRet := ret != nil && len(ret.Results) == 2 && Term(ret.Results[1]) == "p0.error" && (Term(ret.Results[0]) == "p0.data" || isNilConst(ret.Results[0]))
+			if cached {
+				r.Check(stores == 0 && calls == 0 && okRet && Term(ret.Results[0]) == "p0.data", key, ret.Pos(), "cached: returns the stored fields, no work", "the cached path does work or does not return the stored fields: "+compactPath(p))
+			} else {
+				r.Check(p.HasLit("p0.data == nil") && p.HasLit("p0.error == nil") && stores >= 1 && nonNil && okRet, key, ret.Pos(), "first call: stores what it returns",
+					"a first-call path returns without caching a non-nil data or error (a second call would parse again and may differ): "+compactPath(p))
+			}
+		}
+		// writers
+		allowed := map[*types.Var]map[string]bool{
+			x.fData:  {fnName(x.data): true},
+			x.fError: {fnName(x.data): true},
+			x.fTags:  {"(*auparse.AuditMessage).auditRuleKeyNew": true},
+		}
+		for fv, fns := range allowed {
+			for _, a := range Writes(w.FieldAccesses(fv)) {
+				okw := fns[fnName(a.Fn)]
+				if a.Kind == "mapupdate" && fv == x.fData {
+					okw = okw && a.Fn == x.data
+				}
+				r.Check(okw, "AuditMessage."+fv.Name()+" "+a.Kind+" in "+fnName(a.Fn), a.Instr.Pos(), "", "AuditMessage."+fv.Name()+" is written ("+a.Kind+") in "+fnName(a.Fn)+": the memoised result can change between calls")
+			}
+		}
+		// auditRuleKeyNew reachable only from enrichData ← Data
+		if akn, err := w.Method("auparse", "AuditMessage", "auditRuleKeyNew"); err == nil {
+			for _, s := range w.CallSites(akn) {
+				r.Check(s.Caller == x.enrich && s.Kind == "static", "caller of auditRuleKeyNew: "+fnName(s.Caller), s.Instr.Pos(), "", "tags can be rewritten outside the first Data() call")
+			}
+			for _, s := range w.CallSites(x.enrich) {
+				r.Check(s.Caller == x.data && s.Kind == "static", "caller of enrichData: "+fnName(s.Caller), s.Instr.Pos(), "", "enrichData runs outside the first Data() call")
+			}
+		} else {
+			r.Anchor(err)
+		}
+		// offset/RawData writers: only the literal in Parse (lemma offset-invariant premise)
+		for _, fv := range []*types.Var{x.fOffset} {
+			for _, a := range Writes(w.FieldAccesses(fv)) {
+				r.Check(a.Fn == x.parse && a.Kind == "store", "AuditMessage."+fv.Name()+" written in "+fnName(a.Fn), a.Instr.Pos(), "", "offset is written outside Parse's literal")
+			}
+		}
+		// Tags = Data's error + m.tags
+		rets := returnsOf(x.tags)
+		okT := len(rets) == 1 && len(callsIn(x.tags, x.data)) == 1
+		if okT {
+			undo := autoAlias(x.tags)
+			okT = Term(rets[0].Results[0]) == "p0.tags" && Term(rets[0].Results[1]) == "Data#1#1"
+			undo()
+		}
+		r.Check(okT, "Tags returns (m.tags, Data's error)", x.tags.Pos(), "", "Tags does not return the memoised tags with Data's error")
+	}
+	// R4
+	r.Rule("C05.R4", "errors surface: in ToMapStr the err != nil edge stores the 'error' key with err.Error()", 1)
+	{
+		fn := x.toMapStr
+		undo := autoAlias(fn)
+		n := 0
+		instrsOf(fn, func(in ssa.Instruction) {
+			mu, ok := in.(*ssa.MapUpdate)
+			if !ok {
+				return
+			}
+			if k, isC := constString(mu.Key); isC && k == "error" {
+				n++
+				r.Check(HoldsAt(mu.Block(), "Data#1#1 != nil") && Term(mu.Value) == "Error#1", "ToMapStr error key", mu.Pos(), "", "the 'error' key is not err.Error() under err != nil")
+			}
+		})
+		// the err != nil edge must reach the store: the If on Data#1#1 != nil has the store in its true successor
+		ps, _ := Paths(fn, PathOpts{MaxVisit: 1})
+		for i, p := range ps {
+			if p.End != "return" || !p.HasLit("Data#1#1 != nil") {
+				continue
+			}
+			has := false
+			for _, e := range p.Events {
+				if mu, ok := e.Instr.(*ssa.MapUpdate); ok && e.Kind == EvMapUpdate {
+					if k, isC := constString(mu.Key); isC && k == "error" {
+						has = true
+					}
+				}
+			}
+			r.Check(has, fmt.Sprintf("ToMapStr path#%d reports the error", i), fn.Pos(), "", "a path with a parse error returns a map without the 'error' key")
+		}
+		r.Check(n == 1, "one 'error' store", fn.Pos(), "", fmt.Sprintf("%d", n))
+		undo()
+	}
+}
+
+func firstLits(p *Path, n int) string {
+	l := p.Lits()
+	if len(l) > n {
+		l = l[:n]
+	}
+	return strings.Join(l, " ∧ ")
+}
+
+// ----------------------------------------------------------------------------------------------
+// C12
+
+func init() {
+	props["C12"] = propC12
+	propMeta["C12"] = PropMeta{
+		Explanation: "Decoding rules decided as tables recovered from the code: the placeholder set is exactly {\"\", ?, ?,, (null)}; unset ids 4294967295/-1 become 'unset' for exactly auid, old-auid, ses; result is success for yes/1/suc*, else fail, taken from success or else res with the source key deleted; the per-record-type enrichment dispatch (which keys are decoded for which record type) equals the documented table; the hex alphabet is 0-9A-F only and decoding is attempted on the original token (so quoted values are never hex-decoded); sockaddr slices, family constants and minimum lengths equal twice the byte offsets of sockaddr_in/in6/un; arch/syscall/exit go through the published tables with exit >= 0 left unchanged.",
+		NotDecided:  "That decode(encode(x)) == x for all byte strings, addresses and ports (round-trip equality over unbounded value domains); kvRegex's tokenisation of arbitrary values.",
+		Assumptions: []string{"frozen sockaddr layout under /verif/ref/sockaddr_layout.json (Linux UAPI, architecture independent)"},
+	}
+}
+
+type sockLayout struct {
+	Provenance string `json:"provenance"`
+	Families   map[string]struct {
+		Number int               `json:"number"`
+		MinLen int               `json:"min_len_bytes"`
+		Fields map[string][2]int `json:"fields"` // byte offsets [lo, hi); hi = -1: to the end
+	} `json:"families"`
+}
+
+func propC12(r *Run, w *World) {
+	x := loadAup(r, w)
+	if !x.ok {
+		return
+	}
+	cv := func(name string) string {
+		c, err := w.Const("auparse", name)
+		if err != nil {
+			r.Anchor(err)
+			return "?"
+		}
+		return constVal(c)
+	}
+	// R1
+	r.Rule("C12.R1", "placeholders and derived fields: dropped values are exactly \"\", ?, ?,, (null); 4294967295/-1 become 'unset' for exactly auid, old-auid, ses; result = success for yes/1/prefix suc else fail, from success or else res, source key deleted", 8)
+	{
+		fn := x.extractKV
+		undo := autoAlias(fn)
+		var got []string
+		okArms := true
+		for _, arm := range switchArms(fn) {
+			if arm.Subject != "trimQuotesAndSpace#1" {
+				continue
+			}
+			got = append(got, constKey(arm.Const))
+			// the arm must continue the loop without adding
+			if !armSkips(arm.Arm, fn) {
+				okArms = false
+			}
+		}
+		sort.Strings(got)
+		want := []string{"", "(null)", "?", "?,"}
+		r.Check(strings.Join(got, "|") == strings.Join(want, "|") && okArms, "placeholder set", fn.Pos(), fmt.Sprintf("%q", got), fmt.Sprintf("values dropped are %q (want %q), or a placeholder arm does not skip the pair", got, want))
+		// what is added: key = group 1, field{orig: group 2, value: trimmed group 2}
+		adds := callsNamedIn(fn, "(auparse.fieldMap).add")
+		okAdd := false
+		for _, a := range adds {
+			args := a.Common().Args
+			if strings.HasSuffix(Term(args[1]), "][1]") {
+				var orig, val string
+				for _, st := range storesOf(fn) {
+					t := AddrTerm(st.Addr)
+					if strings.HasSuffix(t, ".orig") {
+						orig = Term(st.Val)
+					}
+					if strings.HasSuffix(t, ".value") {
+						val = Term(st.Val)
+					}
+				}
+				okAdd = strings.HasSuffix(orig, "][2]") && val == "trimQuotesAndSpace#1"
+			}
+		}
+		r.Check(okAdd, "pair added as {orig: token, value: trimmed token}", fn.Pos(), "", "the extracted pair is not stored as key → {original token, trimmed value}")
+		undo()
+		// trimQuotesAndSpace
+		if tq, err := w.Func("auparse", "trimQuotesAndSpace"); err == nil {
+			rets := returnsOf(tq)
+			r.Check(len(rets) == 1 && Term(rets[0].Results[0]) == "strings.Trim(p0, \"'\\\" \")", "trimQuotesAndSpace", tq.Pos(), "", "trimQuotesAndSpace is not strings.Trim(v, `'\" `)")
+		} else {
+			r.Anchor(err)
+		}
+	}
+	{
+		if nu, err := w.Method("auparse", "fieldMap", "normalizeUnsetID"); err != nil {
+			r.Anchor(err)
+		} else {
+			var got []string
+			okEff := true
+			for _, arm := range switchArms(nu) {
+				if !strings.HasSuffix(arm.Subject, ".value") {
+					continue
+				}
+				got = append(got, constKey(arm.Const))
+				calls := 0
+				for _, in := range arm.Arm.Instrs {
+					if c, ok := in.(*ssa.Call); ok && calleeName(c) == "(auparse.fieldMap).setFieldValue" {
+						calls++
+						s, _ := constString(c.Call.Args[2])
+						if s != "unset" || c.Call.Args[1] != ssa.Value(nu.Params[1]) {
+							okEff = false
+						}
+					}
+				}
+				if calls != 1 {
+					okEff = false
+				}
+			}
+			sort.Strings(got)
+			r.Check(strings.Join(got, "|") == "-1|4294967295" && okEff, "unset ids", nu.Pos(), "", fmt.Sprintf("unset spellings are %q or the value is not replaced by 'unset'", got))
+			var keys []string
+			for _, s := range w.CallSites(nu) {
+				if s.Caller != x.enrich {
+					r.Fail("normalizeUnsetID called from "+fnName(s.Caller), s.Instr.Pos(), "")
+					continue
+				}
+				k, _ := constString(s.Instr.(ssa.CallInstruction).Common().Args[1])
+				keys = append(keys, k)
+			}
+			sort.Strings(keys)
+			r.Check(strings.Join(keys, "|") == "auid|old-auid|ses", "unset applies to auid, old-auid, ses", x.enrich.Pos(), "", fmt.Sprintf("normalizeUnsetID is applied to %q", keys))
+		}
+	}
+	{
+		if res, err := w.Method("auparse", "fieldMap", "result"); err != nil {
+			r.Anchor(err)
+		} else {
+			undo := autoAlias(res)
+			ps, _ := Paths(res, PathOpts{})
+			for i, p := range ps {
+				key := fmt.Sprintf("result path#%d [%s]", i, strings.Join(p.Lits(), " ∧ "))
+				adds := p.CallsNamed("(auparse.fieldMap).add")
+				dels := p.CallsNamed("(auparse.fieldMap).delete")
+				ret := p.Return()
+				if p.HasLit("find#1#1 != nil") && p.HasLit("find#2#1 != nil") {
+					r.Check(len(adds) == 0 && len(dels) == 0 && ret != nil && !isNilConst(ret.Results[0]), key, res.Pos(), "neither key: error, nothing changed", "result() changes the map although neither success nor res exists")
+					continue
+				}
+				src := "success"
+				if p.HasLit("find#1#1 != nil") {
+					src = "res"
+				}
+				okDel := len(dels) == 1
+				if okDel {
+					k, _ := constString(dels[0].Instr.(*ssa.Call).Call.Args[1])
+					okDel = k == src
+				}
+				pos := p.HasLit("ToLower#1 == \"yes\"") || p.HasLit("ToLower#1 == \"1\"") || p.HasLit("HasPrefix#1")
+				neg := p.HasLit("ToLower#1 != \"yes\"") && p.HasLit("ToLower#1 != \"1\"") && p.HasLit("!HasPrefix#1")
+				okAdd := len(adds) == 1
+				if okAdd {
+					c := adds[0].Instr.(*ssa.Call)
+					k, _ := constString(c.Call.Args[1])
+					v := ""
+					if nf, ok := c.Call.Args[2].(*ssa.Call); ok && len(nf.Call.Args) == 1 {
+						v, _ = constString(nf.Call.Args[0])
+					}
+					okAdd = k == "result" && ((pos && v == "success") || (neg && !pos && v == "fail"))
+				}
+				r.Check(okDel && okAdd, key, res.Pos(), "source key deleted, result = success|fail", "result() does not delete its source key and add result=success for yes/1/suc*, fail otherwise: "+compactPath(p))
+			}
+			// the tested value is the lower-cased field value; HasPrefix tests "suc"
+			okT := true
+			for _, c := range callsNamedIn(res, "strings.HasPrefix") {
+				s, _ := constString(c.Common().Args[1])
+				okT = okT && s == "suc" && Term(c.Common().Args[0]) == "ToLower#1"
+			}
+			for _, c := range callsNamedIn(res, "strings.ToLower") {
+				okT = okT && strings.HasSuffix(Term(c.Common().Args[0]), ".value")
+			}
+			r.Check(okT, "result tests the lower-cased value", res.Pos(), "", "result() does not test strings.ToLower(field.value) against yes/1/suc")
+			undo()
+		}
+	}
+
+	// R2 dispatch
+	r.Rule("C12.R2", "enrichment dispatch: for each record type the set of decoded keys equals the documented table (all: auid/old-auid/ses unset, subj, result, exit, key, cwd; SYSCALL/SECCOMP: arch, syscall, exe (+sig); SOCKADDR: saddr; PROCTITLE: proctitle; USER_CMD: cmd; TTY/USER_TTY: data; EXECVE: argc/aN; PATH: obj, name; USER_LOGIN: acct)", 12)
+	{
+		fn := x.enrich
+		common := "normalizeUnsetID(auid) normalizeUnsetID(old-auid) normalizeUnsetID(ses) parseSELinuxContext(subj) result exit auditRuleKeyNew hexDecode(cwd)"
+		want := map[string]string{
+			cv("AUDIT_SECCOMP"):    "setSignalName arch setSyscallName hexDecode(exe)",
+			cv("AUDIT_SYSCALL"):    "arch setSyscallName hexDecode(exe)",
+			cv("AUDIT_SOCKADDR"):   "saddr",
+			cv("AUDIT_PROCTITLE"):  "hexDecode(proctitle)",
+			cv("AUDIT_USER_CMD"):   "hexDecode(cmd)",
+			cv("AUDIT_TTY"):        "hexDecode(data)",
+			cv("AUDIT_USER_TTY"):   "hexDecode(data)",
+			cv("AUDIT_EXECVE"):     "execveArgs",
+			cv("AUDIT_PATH"):       "parseSELinuxContext(obj) hexDecode(name)",
+			cv("AUDIT_USER_LOGIN"): "hexDecode(acct)",
+			"default":              "",
+		}
+		ps, complete := Paths(fn, PathOpts{})
+		if !complete {
+			r.Undecided("enrichData paths", fn.Pos(), "path cap exceeded")
+		}
+		seen := map[string]bool{}
+		for _, p := range ps {
+			ret := p.Return()
+			if ret == nil || !isNilConst(ret.Results[0]) {
+				continue // error exits
+			}
+			// must be the all-success path: no `!= nil` literal
+			failed := false
+			for _, l := range p.Lits() {
+				if strings.HasSuffix(l, " != nil") {
+					failed = true
+				}
+			}
+			if failed {
+				r.Fail("enrichData success-with-error", fn.Pos(), "enrichData returns nil although a decoder failed: "+compactPath(p))
+				continue
+			}
+			typ := "default"
+			for _, l := range p.Lits() {
+				if strings.HasPrefix(l, "p0.RecordType == ") {
+					typ = strings.TrimPrefix(l, "p0.RecordType == ")
+				}
+			}
+			var seq []string
+			for _, e := range p.Events {
+				if e.Kind != EvCall {
+					continue
+				}
+				c := e.Instr.(*ssa.Call)
+				n := calleeName(c)
+				if i := strings.LastIndex(n, "."); i >= 0 {
+					n = n[i+1:]
+				}
+				for _, a := range c.Call.Args {
+					if s, ok := constString(a); ok {
+						n += "(" + s + ")"
+					}
+				}
+				seq = append(seq, n)
+			}
+			got := strings.Join(seq, " ")
+			w, known := want[typ]
+			exp := strings.TrimSpace(common + " " + w)
+			seen[typ] = true
+			if !known {
+				r.Fail("enrichData type "+typ, fn.Pos(), "record type "+typ+" has an enrichment arm that is not in the documented table: "+got)
+				continue
+			}
+			r.Check(got == exp, "enrichData type "+typ, fn.Pos(), got, fmt.Sprintf("record type %s is enriched by [%s]; the documented table says [%s]", typ, got, exp))
+		}
+		for t := range want {
+			if !seen[t] {
+				r.Fail("enrichData type "+t, fn.Pos(), "record type "+t+" is no longer enriched on any path")
+			}
+		}
+		// each decoder's failure is returned
+		for _, p := range ps {
+			ret := p.Return()
+			if ret == nil || isNilConst(ret.Results[0]) {
+				continue
+			}
+			r.Check(HoldsAt(ret.Block(), Term(ret.Results[0])+" != nil"), "enrichData error exit "+Term(ret.Results[0]), ret.Pos(), "", "an error exit of enrichData returns something other than the failed decoder's error")
+		}
+	}
+
+	// R3 hex
+	r.Rule("C12.R3", "hex alphabet is 0-9A-F only; every decoder works on the original token (field.orig), so quoted values are never hex-decoded; decodeUppercaseHex rejects odd lengths", 6)
+	{
+		if fh, err := w.Func("auparse", "fromHexChar"); err != nil {
+			r.Anchor(err)
+		} else {
+			ok := 0
+			for _, ret := range returnsOf(fh) {
+				t := Term(ret.Results[0]) + "," + Term(ret.Results[1])
+				g := GuardLits(ret.Block())
+				switch t {
+				case "(p0 - 48),true":
+					if containsStr(g, "p0 >= 48") && containsStr(g, "p0 <= 57") {
+						ok++
+					}
+				case "((p0 - 65) + 10),true":
+					if containsStr(g, "p0 >= 65") && containsStr(g, "p0 <= 70") {
+						ok++
+					}
+				case "0,false":
+					ok++
+				default:
+					ok = -10
+				}
+			}
+			r.Check(ok == 3, "fromHexChar", fh.Pos(), "'0'-'9' → 0-9, 'A'-'F' → 10-15, else invalid", "fromHexChar accepts characters outside 0-9A-F or maps them to other values")
+		}
+		for _, spec := range []struct{ typ, fn, callee, suffix string }{
+			{"fieldMap", "hexDecode", "auparse.hexToStrings", ".orig"},
+			{"fieldMap", "execveArgs", "auparse.hexToString", ".orig"},
+			{"AuditMessage", "auditRuleKeyNew", "auparse.decodeUppercaseHexString", ".orig"},
+		} {
+			fn, err := w.Method("auparse", spec.typ, spec.fn)
+			if err != nil {
+				r.Anchor(err)
+				continue
+			}
+			calls := callsNamedIn(fn, spec.callee)
+			ok := len(calls) == 1 && strings.HasSuffix(Term(calls[0].Common().Args[0]), spec.suffix)
+			r.Check(ok, spec.fn+" decodes the original token", fn.Pos(), "", spec.fn+" hex-decodes something other than the field's original token")
+		}
+		if du, err := w.Func("auparse", "decodeUppercaseHex"); err == nil {
+			okOdd := false
+			for _, ret := range returnsOf(du) {
+				if HoldsAt(ret.Block(), "(len(p1) % 2) == 1") && !isNilConst(ret.Results[1]) {
+					okOdd = true
+				}
+			}
+			r.Check(okOdd, "odd length rejected", du.Pos(), "", "decodeUppercaseHex does not reject odd-length input")
+			// dst[i] = a<<4 | b
+			okW := false
+			for _, st := range storesOf(du) {
+				if strings.HasPrefix(AddrTerm(st.Addr), "p0[") && strings.Contains(Term(st.Val), " << 4) | ") {
+					okW = true
+				}
+			}
+			r.Check(okW, "byte = hi<<4 | lo", du.Pos(), "", "decoded byte is not (a << 4) | b")
+		} else {
+			r.Anchor(err)
+		}
+	}
+
+	// R4 sockaddr
+	r.Rule("C12.R4", "sockaddr layout: family from s[2:4]+s[0:2]; family constants 1/2/10/16; port/address/flow slices and minimum lengths equal twice the byte offsets of sockaddr_in/in6/un", 10)
+	{
+		var lay sockLayout
+		b, err := os.ReadFile(filepath.Join(verifDir(), "ref", "sockaddr_layout.json"))
+		if err == nil {
+			err = json.Unmarshal(b, &lay)
+		}
+		ps, errF := w.Func("auparse", "parseSockaddr")
+		if err != nil || errF != nil {
+			if err != nil {
+				r.Undecided("sockaddr reference", token.NoPos, err.Error())
+			}
+			if errF != nil {
+				r.Anchor(errF)
+			}
+		} else {
+			undo := autoAlias(ps)
+			// family
+			okFam := false
+			for _, c := range callsNamedIn(ps, "auparse.hexToDec") {
+				if termAlias[c.Value()] == "hexToDec#1" {
+					okFam = Term(c.Common().Args[0]) == "(p0[2:4] + p0[0:2])"
+				}
+			}
+			r.Check(okFam, "family = host-order s[2:4]+s[0:2]", ps.Pos(), "", "the address family is not read from the first two bytes in host order")
+			r.Check(guardBeforeAll(ps, "len(p0) >= 4"), "len(s) >= 4 before the family is read", ps.Pos(), "", "the family is read without len(s) >= 4")
+			arms := map[string]*ssa.BasicBlock{}
+			for _, arm := range switchArms(ps) {
+				if arm.Subject == "hexToDec#1#0" {
+					arms[constKey(arm.Const)] = arm.Arm
+				}
+			}
+			for name, fam := range lay.Families {
+				arm, ok := arms[fmt.Sprint(fam.Number)]
+				if !ok {
+					r.Fail("family "+name, ps.Pos(), fmt.Sprintf("no case for address family %d", fam.Number))
+					continue
+				}
+				// collect slices of p0 in blocks dominated by the arm
+				got := map[string]bool{}
+				minOK := fam.MinLen == 0
+				for _, b := range ps.Blocks {
+					if b != arm && !arm.Dominates(b) {
+						continue
+					}
+					for _, in := range b.Instrs {
+						if sl, ok := in.(*ssa.Slice); ok && sl.X == ssa.Value(ps.Params[0]) {
+							got[Term(sl)] = true
+							if fam.MinLen > 0 && !HoldsAt(b, fmt.Sprintf("len(p0) >= %d", 2*fam.MinLen)) {
+								minOK = false
+								r.Fail("family "+name+" slice unguarded", sl.Pos(), fmt.Sprintf("%s is taken without len(s) >= %d", Term(sl), 2*fam.MinLen))
+							} else if fam.MinLen > 0 {
+								minOK = true
+							}
+						}
+					}
+				}
+				var wantS []string
+				for fname, off := range fam.Fields {
+					if fname == "family" {
+						continue
+					}
+					hi := ""
+					if off[1] >= 0 {
+						hi = fmt.Sprint(2 * off[1])
+					}
+					wantS = append(wantS, fmt.Sprintf("p0[%d:%s]", 2*off[0], hi))
+				}
+				sort.Strings(wantS)
+				var gotS []string
+				for g := range got {
+					gotS = append(gotS, g)
+				}
+				sort.Strings(gotS)
+				r.Check(strings.Join(gotS, " ") == strings.Join(wantS, " ") && minOK, "family "+name+" slices", arm.Instrs[0].Pos(), strings.Join(gotS, " "),
+					fmt.Sprintf("family %s (%d) is decoded from %v; struct layout says %v with minimum length %d hex digits", name, fam.Number, gotS, wantS, 2*fam.MinLen))
+			}
+			undo()
+		}
+		// hexToIP
+		if hi, err := w.Func("auparse", "hexToIP"); err == nil {
+			var sl []string
+			instrsOf(hi, func(in ssa.Instruction) {
+				if s, ok := in.(*ssa.Slice); ok && s.X == ssa.Value(hi.Params[0]) {
+					sl = append(sl, Term(s))
+					r.Check(HoldsAt(s.Block(), "len(p0) == 8"), "hexToIP slice "+Term(s), s.Pos(), "", "IPv4 octet slice without len(h) == 8")
+				}
+			})
+			r.Check(strings.Join(sl, " ") == "p0[0:2] p0[2:4] p0[4:6] p0[6:8]", "hexToIP octets", hi.Pos(), "", "IPv4 octets are not h[0:2] h[2:4] h[4:6] h[6:8]: "+strings.Join(sl, " "))
+			okFmt := false
+			for _, c := range callsNamedIn(hi, "fmt.Sprintf") {
+				f, _ := constString(c.Common().Args[0])
+				okFmt = f == "%d.%d.%d.%d"
+			}
+			r.Check(okFmt, "hexToIP dotted quad", hi.Pos(), "", "IPv4 is not printed as %d.%d.%d.%d")
+		} else {
+			r.Anchor(err)
+		}
+	}
+
+	// R5 table lookups
+	r.Rule("C12.R5", "table lookups: arch through AuditArch.String, syscall through AuditSyscalls[arch][n], negative exit through AuditErrnoToName[-n] with exit >= 0 left unchanged", 3)
+	{
+		if fn, err := w.Method("auparse", "fieldMap", "arch"); err == nil {
+			undo := autoAlias(fn)
+			ok := false
+			for _, c := range callsNamedIn(fn, "(auparse.fieldMap).setFieldValue") {
+				a := c.Common().Args
+				k, _ := constString(a[1])
+				ok = k == "arch" && Term(a[2]) == "String#1"
+			}
+			for _, c := range callsNamedIn(fn, "(auparse.AuditArch).String") {
+				ok = ok && Term(c.Common().Args[0]) == "auparse.AuditArch(ParseInt#1#0)"
+			}
+			for _, c := range callsNamedIn(fn, "strconv.ParseInt") {
+				ok = ok && isConstInt(c.Common().Args[1], 16) && strings.HasSuffix(Term(c.Common().Args[0]), ".value")
+			}
+			r.Check(ok, "arch", fn.Pos(), "arch = AuditArch(hex value).String()", "arch is not rendered through AuditArch.String of the hexadecimal value")
+			undo()
+		} else {
+			r.Anchor(err)
+		}
+		if fn, err := w.Method("auparse", "fieldMap", "setSyscallName"); err == nil {
+			undo := autoAlias(fn)
+			ok := false
+			for _, c := range callsNamedIn(fn, "(auparse.fieldMap).setFieldValue") {
+				a := c.Common().Args
+				k, _ := constString(a[1])
+				t := Term(a[2])
+				ok = k == "syscall" && strings.HasPrefix(t, "auparse.AuditSyscalls[") && strings.HasSuffix(t, ".value][Atoi#1#0]") && HoldsAt(c.Block(), "has("+strings.TrimSuffix(t, "[Atoi#1#0]")+", Atoi#1#0)")
+			}
+			r.Check(ok, "syscall", fn.Pos(), "AuditSyscalls[arch][n] when found", "syscall is not translated through AuditSyscalls[arch.value][number] (when present)")
+			undo()
+		} else {
+			r.Anchor(err)
+		}
+		if fn, err := w.Method("auparse", "fieldMap", "exit"); err == nil {
+			undo := autoAlias(fn)
+			ok := false
+			for _, c := range callsNamedIn(fn, "(auparse.fieldMap).setFieldValue") {
+				a := c.Common().Args
+				k, _ := constString(a[1])
+				ok = k == "exit" && Term(a[2]) == "auparse.AuditErrnoToName[(-1 * Atoi#1#0)]" && HoldsAt(c.Block(), "Atoi#1#0 < 0") &&
+					HoldsAt(c.Block(), "has(auparse.AuditErrnoToName, (-1 * Atoi#1#0))")
+			}
+			r.Check(ok, "exit", fn.Pos(), "negative exit → errno name", "negative exit codes are not translated through AuditErrnoToName[-code] (non-negative left unchanged)")
+			undo()
+		} else {
+			r.Anchor(err)
+		}
+	}
+}
+
+// armSkips: the arm block leads back to the loop header without calling add.
+func armSkips(b *ssa.BasicBlock, fn *ssa.Function) bool {
+	for steps := 0; steps < 3; steps++ {
+		for _, in := range b.Instrs {
+			if c, ok := in.(*ssa.Call); ok && strings.HasSuffix(calleeName(c), ".add") {
+				return false
+			}
+		}
+		if len(b.Succs) != 1 {
+			// reached a branching block: fine if it is a loop header
+			for _, l := range NaturalLoops(fn) {
+				if l.Header == b {
+					return true
+				}
+			}
+			return false
+		}
+		b = b.Succs[0]
+	}
+	return false
+}
+
+// guardBeforeAll: every slice/index of p0 in fn is dominated by lit.
+func guardBeforeAll(fn *ssa.Function, lit string) bool {
+	ok := true
+	instrsOf(fn, func(in ssa.Instruction) {
+		if sl, isSl := in.(*ssa.Slice); isSl && sl.X == ssa.Value(fn.Params[0]) {
+			if !HoldsAt(sl.Block(), lit) {
+				ok = false
+			}
+		}
+	})
+	return ok
+}
